@@ -379,6 +379,13 @@ def startsComma : List Slot → Bool
   | .lit (44 :: _) :: _ => true
   | _ => false
 
+/-- what may follow a label: nothing, the comma of the next literal, or ` [` (the bracket that opens the cases of a switch) -/
+def labFollow : List Slot → Bool
+  | [] => true
+  | .lit (44 :: _) :: _ => true
+  | .lit (32 :: _) :: _ => true
+  | _ => false
+
 def opFollow : List Slot → Bool
   | [] => true
   | .lit (44 :: _) :: _ => true
@@ -458,7 +465,7 @@ def fmtOK : List Slot → Bool
   | .ty :: fs => tyFollow fs && fmtOK fs
   | .tyval :: fs => opFollow fs && fmtOK fs
   | .val :: fs => opFollow fs && fmtOK fs
-  | .lab :: fs => startsComma fs && fmtOK fs
+  | .lab :: fs => labFollow fs && fmtOK fs
   | .retv :: fs => fs.isEmpty
   | .phis :: fs => fs.isEmpty
   | .nums :: fs => fs.isEmpty
@@ -474,6 +481,15 @@ theorem endOK_print (useHex : Int → Bool) (cur : Ty) (fs : List Slot) (as : Li
   split at hs
   · simp [printSlots, endOK]
   · simp [printSlots, endOK]
+  · cases hs
+
+theorem labEnd_print (useHex : Int → Bool) (cur : Ty) (fs : List Slot) (as : List Arg)
+    (hs : labFollow fs = true) : identEnd (printSlots useHex cur fs as) = true := by
+  unfold labFollow at hs
+  split at hs
+  · simp [printSlots, identEnd]
+  · simp [printSlots, identEnd, inTail, inHead, isAlpha, isUpper, isLower, isDigit]
+  · simp [printSlots, identEnd, inTail, inHead, isAlpha, isUpper, isLower, isDigit]
   · cases hs
 
 theorem opEnd_print (useHex : Int → Bool) (cur : Ty) (fs : List Slot) (as : List Arg)
@@ -735,7 +751,7 @@ theorem read_print_slots (useHex : Int → Bool) (fs : List Slot) (as : List Arg
     have hi : identOK i := ha (.lab i) (by simp)
     have ha' : ∀ a ∈ as', argOK a := fun a h => ha a (by simp [h])
     simp only [printSlots, readSlots]
-    simp only [readIdent_identString i _ hi (endOK_identEnd _ (endOK_print useHex cur fs' as' hf.1))]
+    simp only [readIdent_identString i _ hi (labEnd_print useHex cur fs' as' hf.1)]
     simp only [ih cur hf.2 ha']
   | @retv v fs' as' hm ih =>
     intro cur hf ha
@@ -956,15 +972,22 @@ theorem rows_valuecall : valueCallRows.all (fun k => match rows[k]? with
     | none => false) = true := by decide +kernel
 theorem rows_fmt : rows.all (fun r => fmtOK r.slots) = true := by decide +kernel
 /-- no row starts with `%` (an instruction line that starts with `%` carries a result) and none is empty -/
-theorem rows_head : rows.all (fun r => match r.pre with | [] => false | c :: _ => c != 37) = true := by decide +kernel
+theorem rows_head : rows.all (fun r => match r.pre with | [] => false | c :: _ => c != 37 && c != 9) = true := by decide +kernel
+
+/-- the continuation lines are those of the row, with well-formed identifiers and constants -/
+def extOK (row : Nat) : Ext → Prop
+  | .none => row ≠ swRow ∧ row ∉ invRows ∧ row ≠ lpRow
+  | .cases cs => row = swRow ∧ ∀ c ∈ cs, cwf c.2.1 = true ∧ identOK c.2.2
+  | .dests n u => row ∈ invRows ∧ identOK n ∧ identOK u
+  | .clauses _ cs => row = lpRow ∧ ∀ c ∈ cs, operandOK c.2.2
 
 def instOK (i : Inst) : Prop :=
   ∃ r, rows[i.row]? = some r ∧ Matches r.slots i.args ∧ (∀ a ∈ i.args, argOK a) ∧ r.hasRes = i.res.isSome ∧ (∀ id ∈ i.res, identOK id) ∧
-    callTyOK i = true
+    callTyOK i = true ∧ extOK i.row i.ext
 
 theorem call_void_ok (useHex : Int → Bool) (i : Inst) (r : Row) (hr : rows[i.row]? = some r) (hm : Matches r.slots i.args)
     (hc : callTyOK i = true) : ∀ q ∈ rows, q.pre = r.pre ++ sVoidSp → startsVoid (printSlots useHex r.cur0 r.slots i.args) = false := by
-  obtain ⟨ires, irow, iargs⟩ := i
+  obtain ⟨ires, irow, iargs, iext⟩ := i
   simp only at hr hm hc ⊢
   intro q hq he
   have hk : irow < rows.length := by
@@ -997,7 +1020,7 @@ theorem call_void_ok (useHex : Int → Bool) (i : Inst) (r : Row) (hr : rows[i.r
 
 theorem readBody_print (useHex : Int → Bool) (i : Inst) (r : Row) (hr : rows[i.row]? = some r) (hm : Matches r.slots i.args)
     (ha : ∀ a ∈ i.args, argOK a) (hres : r.hasRes = i.res.isSome) (hc : callTyOK i = true) :
-    readBody i.res (r.pre ++ printSlots useHex r.cur0 r.slots i.args) = some i := by
+    readBody i.res (r.pre ++ printSlots useHex r.cur0 r.slots i.args) = some { i with ext := .none } := by
   unfold readBody
   have hf := findRow_spec rows 0 i.row r (printSlots useHex r.cur0 r.slots i.args) rows_diverge hr (call_void_ok useHex i r hr hm hc)
   simp only [Nat.zero_add] at hf
@@ -1007,11 +1030,11 @@ theorem readBody_print (useHex : Int → Bool) (i : Inst) (r : Row) (hr : rows[i
     simpa using this
   have hs := read_print_slots useHex r.slots i.args hm r.cur0 hfmt ha
   simp only [hs]
-  obtain ⟨ires, irow, iargs⟩ := i
+  obtain ⟨ires, irow, iargs, iext⟩ := i
   cases ires <;> simp_all
 
-theorem readInst_print (useHex : Int → Bool) (i : Inst) (hi : instOK i) : readInst (instString useHex i) = some i := by
-  obtain ⟨r, hr, hm, ha, hres, hid, hcall⟩ := hi
+theorem readInst_print (useHex : Int → Bool) (i : Inst) (hi : instOK i) : readInst (instString useHex i) = some { i with ext := .none } := by
+  obtain ⟨r, hr, hm, ha, hres, hid, hcall, _⟩ := hi
   unfold instString
   rw [hr]
   cases hres' : i.res with
@@ -1096,27 +1119,209 @@ theorem labelString_not_inst (i : Ident) (hi : identOK i) : isInstLine (labelStr
     simp [labelString, isInstLine, hd, this]
   | anon => exact absurd hi (by simp [identOK])
 
+theorem isTerm_ext (i : Inst) (x : Ext) : isTerm { i with ext := x } = isTerm i := rfl
+
+theorem readCaseLine_print (useHex : Int → Bool) (c : Ty × Const × Ident) (hc : cwf c.2.1 = true) (hb : identOK c.2.2) :
+    readCaseLine (caseLine useHex c) = some c := by
+  obtain ⟨t, k, b⟩ := c
+  simp only at hc hb
+  have e : caseLine useHex (t, k, b) = [9, 9] ++ (tyString t ++ 32 :: (operandString useHex t (.const k) ++ (sCommaLabel ++ identString b))) := by
+    simp [caseLine, operandString]
+  have hstep := tyval_step useHex t (.const k) (sCommaLabel ++ identString b) hc
+  have hf : csize k ≤ (constIdent useHex t k ++ (sCommaLabel ++ identString b)).length + 1 := by
+    have := csize_le_len useHex t k; simp only [List.length_append]; omega
+  have hrc := read_const useHex k _ t (sCommaLabel ++ identString b) (by simp [sCommaLabel, stopC]) hf hc
+  have hri := readIdent_identString b [] hb rfl
+  simp only [List.append_nil] at hri
+  rw [e]
+  unfold readCaseLine
+  simp only [TyParse.stripPrefix_append, hstep]
+  simp only [operandString, hrc, TyParse.stripPrefix_append, hri]
+
+theorem caseLine_ne_close (useHex : Int → Bool) (c : Ty × Const × Ident) : (caseLine useHex c == sCloseCases) = false := by
+  simp [caseLine, sCloseCases]
+
+theorem readCaseLines_print (useHex : Int → Bool) (tl : List Bytes) : ∀ (cs : List (Ty × Const × Ident)),
+    (∀ c ∈ cs, cwf c.2.1 = true ∧ identOK c.2.2) → readCaseLines (cs.map (caseLine useHex) ++ sCloseCases :: tl) = some (cs, tl)
+  | [], _ => by simp [readCaseLines]
+  | c :: cs, h => by
+    have ih := readCaseLines_print useHex tl cs (fun x hx => h x (by simp [hx]))
+    have hc := h c (by simp)
+    simp only [List.map_cons, List.cons_append, readCaseLines, caseLine_ne_close, Bool.false_eq_true, if_false,
+      readCaseLine_print useHex c hc.1 hc.2, ih]
+
+theorem readDests_print (n u : Ident) (hn : identOK n) (hu : identOK u) : readDests (destsLine n u) = some (n, u) := by
+  have h1 := readIdent_identString n (sUnwindLabel ++ identString u) hn
+    (by simp [sUnwindLabel, identEnd, inTail, inHead, isAlpha, isUpper, isLower, isDigit])
+  have h2 := readIdent_identString u [] hu rfl
+  simp only [List.append_nil] at h2
+  have e : destsLine n u = sToLabel ++ (identString n ++ (sUnwindLabel ++ identString u)) := by simp [destsLine]
+  rw [e]
+  unfold readDests
+  simp only [TyParse.stripPrefix_append, h1, h2]
+
+/-- a line that does not continue an instruction: it does not start with two tabs -/
+def notCont (l : Bytes) : Bool := !(TyParse.stripPrefix [9, 9] l).isSome
+
+theorem readClauseBody_print (useHex : Int → Bool) (fl : Bool) (t : Ty) (o : Operand) (ho : operandOK o) :
+    readClauseBody fl (tyString t ++ [32] ++ operandString useHex t o) = some (fl, t, o) := by
+  have hstep := tyval_step useHex t o [] ho
+  have hro := readOperand_operandString useHex t o [] ho rfl
+  simp only [List.append_nil] at hstep hro
+  have e : tyString t ++ [32] ++ operandString useHex t o = tyString t ++ 32 :: operandString useHex t o := by simp
+  rw [e]
+  unfold readClauseBody
+  simp only [hstep, hro]
+
+theorem clauseLine_cont (useHex : Int → Bool) (c : Bool × Ty × Operand) : (TyParse.stripPrefix [9, 9] (clauseLine useHex c)).isSome = true := by
+  obtain ⟨fl, t, o⟩ := c
+  cases fl <;> simp [clauseLine, sCatch, sFilter, TyParse.stripPrefix]
+
+theorem clauseLine_ne_cleanup (useHex : Int → Bool) (c : Bool × Ty × Operand) : (clauseLine useHex c == sCleanup) = false := by
+  obtain ⟨fl, t, o⟩ := c
+  cases fl <;> simp [clauseLine, sCatch, sFilter, sCleanup]
+
+theorem readClauses_print (useHex : Int → Bool) (tl : List Bytes) (htl : ∀ l ∈ tl.head?, notCont l = true) :
+    ∀ (cs : List (Bool × Ty × Operand)), (∀ c ∈ cs, operandOK c.2.2) → readClauses (cs.map (clauseLine useHex) ++ tl) = some (cs, tl)
+  | [], _ => by
+    cases tl with
+    | nil => simp [readClauses]
+    | cons l tl' =>
+      have := htl l (by simp)
+      simp only [notCont, Bool.not_eq_true'] at this
+      simp [readClauses, this]
+  | c :: cs, h => by
+    have ih := readClauses_print useHex tl htl cs (fun x hx => h x (by simp [hx]))
+    have hc := h c (by simp)
+    obtain ⟨fl, t, o⟩ := c
+    have hbody := readClauseBody_print useHex fl t o hc
+    simp only [List.map_cons, List.cons_append, readClauses, clauseLine_cont, if_true, ih]
+    cases fl
+    · have e : clauseLine useHex (false, t, o) = sCatch ++ (tyString t ++ [32] ++ operandString useHex t o) := by simp [clauseLine]
+      simp only [e, TyParse.stripPrefix_append, hbody]
+    · have e : clauseLine useHex (true, t, o) = sFilter ++ (tyString t ++ [32] ++ operandString useHex t o) := by simp [clauseLine]
+      have hn : TyParse.stripPrefix sCatch (sFilter ++ (tyString t ++ [32] ++ operandString useHex t o)) = none :=
+        stripPrefix_diverge sCatch sFilter _ (by decide)
+      simp only [e, hn, TyParse.stripPrefix_append, hbody]
+
+theorem readExt_print (useHex : Int → Bool) (row : Nat) (x : Ext) (hx : extOK row x) (tl : List Bytes)
+    (htl : ∀ l ∈ tl.head?, notCont l = true) : readExt row (extLines useHex x ++ tl) = some (x, tl) := by
+  cases x with
+  | none =>
+    obtain ⟨h1, h2, h3⟩ := hx
+    have b1 : (row == swRow) = false := by simpa using h1
+    have b2 : invRows.contains row = false := by simpa using h2
+    have b3 : (row == lpRow) = false := by simpa using h3
+    simp [readExt, extLines, b1, b3, h2]
+  | cases cs =>
+    obtain ⟨h1, h2⟩ := hx
+    subst h1
+    have := readCaseLines_print useHex tl cs h2
+    simp only [readExt, extLines, beq_self_eq_true, if_true, List.append_assoc, List.singleton_append, this]
+  | dests n u =>
+    obtain ⟨h1, h2, h3⟩ := hx
+    have b1 : (row == swRow) = false := by
+      simp only [invRows, List.mem_cons, List.not_mem_nil, or_false] at h1
+      rcases h1 with h | h <;> subst h <;> rfl
+    have b2 : invRows.contains row = true := by simpa using h1
+    simp only [readExt, extLines, b1, b2, Bool.false_eq_true, if_false, if_true, List.singleton_append, List.cons_append, List.nil_append,
+      readDests_print n u h2 h3]
+  | clauses cl cs =>
+    obtain ⟨h1, h2⟩ := hx
+    subst h1
+    have b1 : (lpRow == swRow) = false := rfl
+    have b2 : invRows.contains lpRow = false := rfl
+    have hrc := readClauses_print useHex tl htl cs h2
+    cases cl with
+    | true =>
+      simp only [readExt, extLines, b1, b2, Bool.false_eq_true, if_false, beq_self_eq_true, if_true, List.singleton_append, List.cons_append,
+        List.nil_append, hrc]
+    | false =>
+      simp only [readExt, extLines, b1, b2, Bool.false_eq_true, if_false, beq_self_eq_true, if_true, List.nil_append]
+      cases cs with
+      | nil =>
+        cases tl with
+        | nil => simp
+        | cons l tl' =>
+          have hnc := htl l (by simp)
+          have hne : (l == sCleanup) = false := by
+            cases hl : l == sCleanup with
+            | false => rfl
+            | true =>
+              have : l = sCleanup := by simpa using hl
+              subst this; simp [notCont, sCleanup, TyParse.stripPrefix] at hnc
+          simp only [List.map_nil, List.nil_append] at hrc ⊢
+          simp only [hne, Bool.false_eq_true, if_false, hrc]
+      | cons c cs' =>
+        simp only [List.map_cons, List.cons_append] at hrc ⊢
+        simp only [clauseLine_ne_cleanup, Bool.false_eq_true, if_false, hrc]
+
+/-- the first line of an instruction never continues another one -/
+theorem instLine_notCont (useHex : Int → Bool) (i : Inst) (hi : instOK i) : notCont (9 :: instString useHex i) = true := by
+  obtain ⟨r, hr, _, _, _, hid, _⟩ := hi
+  have hh := List.all_eq_true.mp rows_head r (List.mem_of_getElem? hr)
+  unfold instString
+  rw [hr]
+  cases hres : i.res with
+  | some id =>
+    obtain ⟨rest, hh'⟩ := identString_head id (hid id (by simp [hres]))
+    simp [notCont, hh', TyParse.stripPrefix]
+  | none =>
+    cases hp : r.pre with
+    | nil => simp [hp] at hh
+    | cons c p =>
+      simp only [hp, Bool.and_eq_true, bne_iff_ne, ne_eq] at hh
+      simp only [notCont, TyParse.stripPrefix, hp, List.nil_append, List.cons_append, beq_self_eq_true, if_true]
+      have : (9 == c) = false := by simpa using fun e : (9 : UInt8) = c => hh.2 e.symm
+      simp [this]
+
+/-- the lines of an instruction are read back as that instruction -/
+theorem inst_lines (useHex : Int → Bool) (i : Inst) (hi : instOK i) (tl : List Bytes) (htl : ∀ l ∈ tl.head?, notCont l = true) :
+    readInst (instString useHex i) = some { i with ext := .none } ∧ readExt i.row (extLines useHex i.ext ++ tl) = some (i.ext, tl) := by
+  refine ⟨readInst_print useHex i hi, ?_⟩
+  obtain ⟨_, _, _, _, _, _, _, hx⟩ := hi
+  exact readExt_print useHex i.row i.ext hx tl htl
+
 /-- the instruction lines of a block are read up to and including the terminator -/
-theorem readBody_lines (useHex : Int → Bool) (t : Inst) (ht : instOK t) (htt : isTerm t = true) (tl : List Bytes) :
+theorem readBody_lines (useHex : Int → Bool) (t : Inst) (ht : instOK t) (htt : isTerm t = true) (tl : List Bytes)
+    (htl : ∀ l ∈ tl.head?, notCont l = true) :
     ∀ (is : List Inst), (∀ i ∈ is, instOK i ∧ isTerm i = false) → ∀ f, is.length + 1 ≤ f →
-      readBody' f ((is.map fun i => 9 :: instString useHex i) ++ (9 :: instString useHex t) :: tl) = some (is, t, tl)
+      readBody' f (is.flatMap (instLines useHex) ++ (instLines useHex t ++ tl)) = some (is, t, tl)
   | [], _, f, hf => by
     obtain ⟨f', rfl⟩ : ∃ f', f = f' + 1 := ⟨f - 1, by simp at hf; omega⟩
-    simp [readBody', isInstLine, readInst_print useHex t ht, htt]
+    obtain ⟨h1, h2⟩ := inst_lines useHex t ht tl htl
+    have et : ({ ({ t with ext := .none } : Inst) with ext := t.ext } : Inst) = t := by cases t; rfl
+    simp only [List.flatMap_nil, List.nil_append, instLines, List.cons_append, readBody', isInstLine, List.head?_cons, beq_self_eq_true,
+      Bool.not_true, Bool.false_eq_true, if_false, List.tail_cons, h1, h2, et, htt, if_true]
   | i :: is, hi, f, hf => by
     obtain ⟨f', rfl⟩ : ∃ f', f = f' + 1 := ⟨f - 1, by simp at hf; omega⟩
-    have ih := readBody_lines useHex t ht htt tl is (fun x hx => hi x (by simp [hx])) f' (by simp at hf ⊢; omega)
+    have ih := readBody_lines useHex t ht htt tl htl is (fun x hx => hi x (by simp [hx])) f' (by simp at hf ⊢; omega)
     have h1 := hi i (by simp)
-    simp only [List.map_cons, List.cons_append, readBody', isInstLine, List.head?_cons, beq_self_eq_true, Bool.not_true,
-      Bool.false_eq_true, if_false, List.tail_cons, readInst_print useHex i h1.1, h1.2, ih]
+    -- the line after the lines of `i` is the first line of an instruction
+    have hnext : ∀ l ∈ (is.flatMap (instLines useHex) ++ (instLines useHex t ++ tl)).head?, notCont l = true := by
+      intro l hl
+      cases is with
+      | nil => simp [instLines] at hl; subst hl; exact instLine_notCont useHex t ht
+      | cons j js => simp [instLines] at hl; subst hl; exact instLine_notCont useHex j (hi j (by simp)).1
+    obtain ⟨h2, h3⟩ := inst_lines useHex i h1.1 _ hnext
+    have et : ({ ({ i with ext := .none } : Inst) with ext := i.ext } : Inst) = i := by cases i; rfl
+    simp only [List.flatMap_cons, instLines, List.cons_append, List.append_assoc, readBody', isInstLine, List.head?_cons, beq_self_eq_true,
+      Bool.not_true, Bool.false_eq_true, if_false, List.tail_cons, h2] at ih h3 ⊢
+    simp only [h3, et, h1.2, ih, Bool.false_eq_true, if_false]
+
+theorem instLines_len (useHex : Int → Bool) (t : Inst) : 1 ≤ (instLines useHex t).length := by simp [instLines]
 
 theorem block_step (useHex : Int → Bool) (b : Block) (hb : blockOK b) (tl : List Bytes) (bs : List Block) (f : Nat)
-    (ht : readBlocks f tl = some bs) :
+    (htl : ∀ l ∈ tl.head?, notCont l = true) (ht : readBlocks f tl = some bs) :
     readBlocks (f + 1) (blockLines useHex b ++ tl) = some (b :: bs) := by
   obtain ⟨hl, hi, htm, htt⟩ := hb
-  have hbody := readBody_lines useHex b.term htm htt tl b.insts hi
-    (((b.insts.map fun i => 9 :: instString useHex i) ++ (9 :: instString useHex b.term) :: tl).length + 1) (by
-      simp only [List.length_append, List.length_map, List.length_cons]; omega)
+  have hbody := readBody_lines useHex b.term htm htt tl htl b.insts hi
+    ((b.insts.flatMap (instLines useHex) ++ (instLines useHex b.term ++ tl)).length + 1) (by
+      have : b.insts.length ≤ (b.insts.flatMap (instLines useHex)).length := by
+        induction b.insts with
+        | nil => simp
+        | cons i is ih => have := instLines_len useHex i; simp only [List.flatMap_cons, List.length_append, List.length_cons]; omega
+      simp only [List.length_append]; omega)
   simp only [blockLines, List.cons_append, readBlocks, labelString_ne_close b.label hl, labelString_ne_nil b.label hl,
     labelString_not_inst b.label hl, Bool.false_eq_true, if_false, readLabel_labelString b.label hl, List.append_assoc,
     List.singleton_append, List.nil_append]
@@ -1132,7 +1337,7 @@ theorem readBlocks_print (useHex : Int → Bool) : ∀ (bs : List Block), bs ≠
   | [b], _, hb, f, hf => by
     obtain ⟨f', rfl⟩ : ∃ f', f = f' + 1 + 1 := ⟨f - 2, by simp [blocksLines, blockLines] at hf; omega⟩
     simp only [blocksLines]
-    exact block_step useHex b (hb b (by simp)) [[125]] [] (f' + 1) (by simp [readBlocks])
+    exact block_step useHex b (hb b (by simp)) [[125]] [] (f' + 1) (by simp [notCont, TyParse.stripPrefix]) (by simp [readBlocks])
   | b :: c :: bs, _, hb, f, hf => by
     simp only [blocksLines, List.append_assoc, List.length_append, List.length_cons, List.length_nil] at hf
     obtain ⟨f', rfl⟩ : ∃ f', f = f' + 1 + 1 := ⟨f - 2, by simp [blockLines] at hf; omega⟩
@@ -1141,7 +1346,8 @@ theorem readBlocks_print (useHex : Int → Bool) : ∀ (bs : List Block), bs ≠
       simp [blockLines] at hf; omega)
     simp only [blocksLines, List.append_assoc]
     apply block_step useHex b (hb b (by simp)) _ (c :: bs) (f' + 1)
-    simp only [List.singleton_append, sep_step]; exact ih
+    · simp [notCont, TyParse.stripPrefix]
+    · simp only [List.singleton_append, sep_step]; exact ih
 
 /-! ### the header -/
 
